@@ -24,7 +24,10 @@ def run(chk, replay=None):
     lines = [l for l, _ in cases]
     offs = {False: run_lines(Cfg(nums=True), lines), True: run_lines(Cfg(nums=True, nss=True), lines)}
     # the last configuration combines field-name mode with --redactNamespaces (both features read attr.ns)
-    for rel, prefix, nss in (('equal-db', 'mydb', False), ('full', 'mydb.users', False), ('different', 'otherdb', False), ('different2', 'mydb.usersX', False), ('full+namespaces', 'mydb.users', True)):
+    for rel, prefix, nss in (('equal-db', 'mydb', False), ('full', 'mydb.users', False), ('different', 'otherdb', False), ('different2', 'mydb.usersX', False), ('full+namespaces', 'mydb.users', True),
+                             # configured values that only LOOK related to the line's namespace: compared as given, byte for byte, as a prefix
+                             ('db-with-dot', 'mydb.', False), ('stem-with-dot', 'my.', False), ('coll-with-dot', 'mydb.users.', False), ('other-case', 'MyDB', False),
+                             ('blank-before', ' mydb', False), ('blank-after', 'mydb ', False), ('stem-dots', 'my..', False), ('slash', 'mydb/', False), ('star', 'mydb.*', False)):
         cfg = Cfg(nums=True, nss=nss, eager=[prefix])
         res = run_lines(cfg, lines)
         off = offs[nss]
